@@ -21,6 +21,14 @@ ALLOWED_SEEDS = {
         'documented mutator: assigns a new random colormap; no other lazy depends on cmap',
 }
 
+# (method qualname, lazy key) -> reason a value-changing seed is the documented effect of the method
+VALUE_SEEDS_OK = {
+    ('ProfileBase.normalize', 'profile'): 'documented mutator: rescales the cached profile (all-or-nothing: C19 ATOMIC/MIRROR)',
+    ('ProfileBase.normalize', 'profile_error'): 'documented mutator: rescales the cached profile error (C19 ATOMIC/MIRROR)',
+    ('ProfileBase.unnormalize', 'profile'): 'documented mutator: undoes normalize (C19 ATOMIC/MIRROR)',
+    ('ProfileBase.unnormalize', 'profile_error'): 'documented mutator: undoes normalize (C19 ATOMIC/MIRROR)',
+}
+
 # (function qualname, key) -> reason a `'key' in self.__dict__` test is history independent
 ALLOWED_CACHE_TESTS = {
     ('SegmentationImage.data', '_data'):
@@ -86,6 +94,16 @@ def run_L1(repo, res, prop, lcs, rule='L1'):
                 d = f'{fi.qualname}: {norm_stmt_text(enclosing_stmt(node))}'
                 if d not in res.notes['value_changing_seeds']:
                     res.notes['value_changing_seeds'].append(d)
+                # a cache re-seeded by a mutator with a value the table does not vouch for: the attribute no longer describes
+                # the state the mutator leaves behind (the cached list was computed for the old state)
+                if key in lc.lazies and (fi.qualname, key) not in VALUE_SEEDS_OK:
+                    st_ = enclosing_stmt(node)
+                    res.oblige('SEED', f'{fi.qualname} does not re-seed the cached `{key}` with an unvouched value', False, nontrivial=True)
+                    res.add(Finding('SEED', fi.fullname, f'seed {key}: {norm_stmt_text(st_)}',
+                                    f'{fi.module.relpath}:{getattr(st_, "lineno", 0)}',
+                                    f'{lc.cls.name}.{f.name}: `{norm_stmt_text(st_)}` stores a value into the lazyproperty cache `{key}` '
+                                    f'that is not in the table of seeds known to equal what the getter would compute after this '
+                                    f'mutator: later reads of `{key}` (and of what depends on it) describe the old state', {}))
             for k in seeds:
                 used_seeds.add(k)
     return used_seeds
